@@ -144,7 +144,8 @@ impl Swarm {
             start_w[1] = 1;
         }
         let s_w = match prop {
-            C02 => [10, 5, 2, 2, 30, 15, 20, 2],
+            // C02 judges only boards no unsafe primitive has touched: safe make_raw / make, then drop
+            C02 => [0, 0, 0, 0, 40, 25, 0, 12],
             C04 | C05 => [35, 12, 5, 5, 8, 3, 28, 2],
             _ => [20, 8, 3, 3, 15, 8, 22, 2],
         };
@@ -753,7 +754,8 @@ impl Gen {
             sw[6] = 0;
         }
         if s.stack.len() >= MAX_DEPTH || s.nodes >= 300 {
-            return Op::S(idx as u8, if s.nodes >= 300 && self.rng.chance(30) { SOp::Retire } else { SOp::Unmake });
+            let retire = self.sw.s_w[6] == 0 || (s.nodes >= 300 && self.rng.chance(30));
+            return Op::S(idx as u8, if retire { SOp::Retire } else { SOp::Unmake });
         }
         let sop = match self.rng.weighted(&sw) {
             0 => match self.pick_pseudo(&info) {
